@@ -421,11 +421,17 @@ def _execute(case):
         if len(set(observe.jdump(x) for x in reds.values())) > 1:
             v = {'class': 'redump-depends-on-hash-seed-or-process', 'detail': {h: clip(x) for h, x in reds.items()}}
     if v is None:
+        # the two families of values whose round trip is known to be inexact on the unchanged tree (C02 territory;
+        # measured on 660 000 cases: every fixed-point failure was one of them) keep the exactness guard; for all
+        # other values the fixed point is required unconditionally
+        guarded = known_inexact_family(case)
         for hs, a in answers.items():
-            if a.get('exact'):
-                out['probes']['round_trip_exact'] = out['probes'].get('round_trip_exact', 0) + 1
+            if a.get('exact') or (not guarded and 'redump' in a):
+                key = 'round_trip_exact' if a.get('exact') else 'fixed_point_required_although_round_trip_inexact'
+                out['probes'][key] = out['probes'].get(key, 0) + 1
                 if a.get('redump') != a['texts'][0]:
-                    v = {'class': 'not-a-fixed-point', 'detail': {'hashseed': hs, 'text': clip(a['texts'][0]), 'redump': clip(a.get('redump'))}}
+                    v = {'class': 'not-a-fixed-point', 'detail': {'hashseed': hs, 'round_trip_exact': bool(a.get('exact')),
+                                                                'text': clip(a['texts'][0]), 'redump': clip(a.get('redump'))}}
                     break
                 if a.get('docorder') is False:
                     v = {'class': 'load-order-differs-from-document-order', 'detail': {'hashseed': hs, 'text': clip(a['texts'][0])}}
@@ -437,6 +443,23 @@ def _execute(case):
     out['log'] = observe.digest([[answers[h]['texts'], answers[h].get('redump'), answers[h].get('exact')] for h in case['hashseeds']])
     out['sample'] = dict(describe(case), text=clip(a0['texts'][0]))
     return out
+
+
+def known_inexact_family(case):
+    """True iff the case belongs to one of the two families for which load(dump(x)) != x on the unchanged tree:
+    strings containing U+0085 / U+2028 / U+2029 (written raw under allow_unicode and normalised by the scanner), and
+    very narrow output (width <= 20: folded scalars)."""
+    w = case['opts'].get('width')
+    if w is not None and w <= 20:
+        return True
+    stack = [case['recipe']]
+    while stack:
+        rc = stack.pop()
+        if isinstance(rc, list):
+            if rc and rc[0] == 'str' and isinstance(rc[1], str) and any(ch in rc[1] for ch in '\x85\u2028\u2029'):
+                return True
+            stack.extend(x for x in rc if isinstance(x, list))
+    return False
 
 
 def clip(t):
